@@ -242,8 +242,8 @@ class Case(object):
     def row_in_short_tables(self, table, kind, row):
         rows = self.rows[table]
         name = row if not isinstance(row, int) else rows[row]
-        if name not in rows or rows.count(name) > 1:
-            return False
+        if name not in rows or (rows.count(name) > 1 and isinstance(row, int)):
+            return False          # (which of two rows of one name the short table shows is not decidable for an index)
         blocks = [b for b in self.short if b['kind'] == kind]
         if not blocks:
             return False
@@ -357,6 +357,21 @@ def gen_selections(ctx, case, tier):
             for o in other:
                 sel = sel + [(SPEC[o], case.rows[o][0], case.cols[o][0])]
             yield sel, 'list'
+    # row names that occur more than once in a table (AUTOUGH2 prints some blocks twice): asked for by name and by each
+    # of their indices
+    for t in tabs:
+        rows = case.rows[t]
+        seen, dups = {}, []
+        for i, n in enumerate(rows):
+            seen.setdefault(n, []).append(i)
+        for n, idx in seen.items():
+            if len(idx) > 1:
+                dups.append((n, idx))
+        for n, idx in dups[:3]:
+            ctx.count('selections_of_repeated_row_names')
+            cols = case.cols[t][:2]
+            yield [(SPEC[t], n, c) for c in cols], 'list'
+            yield [(SPEC[t], i, cols[0]) for i in idx] + [(SPEC[t], n, cols[-1])], 'list'
     for t in tabs:
         yield [(SPEC[t], case.rows[t][-1], case.cols[t][-1])], 'tuple'
         yield [(SPEC[t], 0, case.cols[t][0])], 'tuple'
